@@ -2863,6 +2863,8 @@ def groupby_reduce(
         if (
             _is_arg_reduction(agg)
             and method == "blockwise"
+            # an in-memory array (only the labels are chunked) is a single block
+            and is_duck_dask_array(array)
             and not all(nchunks == 1 for nchunks in array.numblocks[-nax:])
         ):
             raise NotImplementedError(
